@@ -36,6 +36,7 @@ type Scenario struct {
 	Corrupt   int // number of corrupted copies of captured datagrams injected (C06)
 	Garbage   int // number of random / mutated datagrams injected (C05)
 	CloseMid  bool // close everything in the middle of the transfer instead of after completion (C15)
+	RateLimit int  // bytes per second handed to SetRateLimit on both sessions (0: none): the post-processing goroutine lags behind
 }
 
 type summary struct {
@@ -70,6 +71,7 @@ func runTransfer(t *testing.T, sc Scenario, sum *summary, tf *vh.TraceFile) {
 	vh.Bubble(t, uint32(sc.Seed*2654435761), 2, func(e *vh.Env) {
 		rng := rand.New(rand.NewSource(sc.Seed))
 		w := NewWorld(e)
+		w.Owned = sc.Seed%5 == 4 // every fifth run: the dialled session and the listener own their transports
 		kcp.VerifPoolSanitize(vh.EnvInt("SESS_NOSAN", 0) == 0, 64, false)
 		if sc.Seed%3 == 0 {
 			kcp.VerifEntropyNearReseed(uint64(10 + rng.Intn(400))) // the nonce source reseeds itself in mid-transfer (C09 freshness, C14)
@@ -122,6 +124,9 @@ func runTransfer(t *testing.T, sc Scenario, sum *summary, tf *vh.TraceFile) {
 			// (the peer's decoder still starts at 0: ids just below the wrap value are "a little behind" for it)
 			n := uint32(sc.Cfg.D + sc.Cfg.P)
 			cli.VerifSetFECNext(0xffffffff/n*n - n*uint32(1+sc.Seed%2))
+		}
+		if sc.RateLimit > 0 {
+			cli.SetRateLimit(uint32(sc.RateLimit))
 		}
 		w.Ev(map[string]any{"ev": "open", "conn": "cli", "stream": sc.Cfg.Stream})
 		// write admission (C04): the hook fires under the session mutex in the branch of WriteBuffers that queues the data
@@ -176,6 +181,9 @@ func runTransfer(t *testing.T, sc Scenario, sum *summary, tf *vh.TraceFile) {
 			}
 			if scfg.D > 0 && sc.OOB > 0 {
 				s.SetOOBHandler(handler("srv", "cli"))
+			}
+			if sc.RateLimit > 0 {
+				s.SetRateLimit(uint32(sc.RateLimit))
 			}
 			srv = s
 			connName.Store(s, "srv")
@@ -395,6 +403,19 @@ func runTransfer(t *testing.T, sc Scenario, sum *summary, tf *vh.TraceFile) {
 		w.Ev(map[string]any{"ev": "end", "complete": done, "wire_prefix": wirePrefix, "wire_content_ok": wireContent, "wire_consistent": wok,
 			"written": sc.Bytes, "chunks_cli": chunks["cli"], "chunks_srv": chunks["srv"]})
 		chunkMu.Unlock()
+		if sc.CloseMid && sc.Seed%2 == 0 {
+			// the transports start failing writes a little before everything is closed: the sessions keep queueing output that can
+			// no longer be sent, then Close finds their post-processing queues busy
+			which := rng.Intn(3)
+			if which != 1 {
+				cconn.FailWrites(fmt.Errorf("simulated write failure"))
+			}
+			if which != 0 {
+				lconn.FailWrites(fmt.Errorf("simulated write failure"))
+			}
+			w.Ev(map[string]any{"ev": "writefail", "which": which})
+			time.Sleep(time.Duration(rng.Intn(25)) * time.Millisecond)
+		}
 		order := rng.Perm(4)
 		for _, o := range order {
 			switch o {
@@ -573,6 +594,9 @@ func TestSessTransfer(t *testing.T) {
 			sc.PauseMs, sc.CtlLoss = []int{300, 3000, 40000}[rng.Intn(3)], rng.Intn(2) == 0
 		case 3:
 			sc.CloseMid = true
+		}
+		if sc.CloseMid && sc.MtuEvents == 0 && r%4 < 2 {
+			sc.RateLimit = 20000 + rng.Intn(300000) // paced output: packets wait in the post-processing queue when Close comes
 		}
 		runTransfer(t, sc, sum, tf)
 	}
